@@ -265,8 +265,10 @@ impl<'a, T: IteTable<'a, BddPtr<'a>> + Default> RobddBuilder<'a, T> {
             return bdd;
         }
 
+        // the variable that every path has to test at this level
+        let var = self.order.borrow().var_at_level(current);
         match bdd {
-            BddPtr::Reg(node) => {
+            BddPtr::Reg(node) if node.var == var => {
                 let smoothed_node = BddNode::new(
                     node.var,
                     self.smooth_helper(node.low, current + 1, total),
@@ -274,9 +276,11 @@ impl<'a, T: IteTable<'a, BddPtr<'a>> + Default> RobddBuilder<'a, T> {
                 );
                 self.get_or_insert(smoothed_node)
             }
-            BddPtr::Compl(node) => self.smooth_helper(BddPtr::Reg(node), current, total).neg(),
-            BddPtr::PtrTrue | BddPtr::PtrFalse => {
-                let var = self.order.borrow().var_at_level(current);
+            BddPtr::Compl(node) if node.var == var => {
+                self.smooth_helper(BddPtr::Reg(node), current, total).neg()
+            }
+            // a constant, or a node that skips this level: insert a don't-care node
+            _ => {
                 let smoothed_node = BddNode::new(
                     var,
                     self.smooth_helper(bdd, current + 1, total),
